@@ -613,10 +613,13 @@ pub fn judge(world: &World) -> Judgement {
                     FileDiff::Added => (true, true),
                     // a removed line is reported at the place where it used to be: in front of
                     // rendered line `line`, which may be the block's end tag
-                    FileDiff::Insert { line, edit: LineEdit::Removed { .. }, .. } => {
-                        (b.start_line < *line && *line <= b.end_line, false)
-                    }
-                    FileDiff::Insert { line, .. } => (b.start_line < *line && *line < b.end_line, false),
+                    FileDiff::Insert { .. } => (
+                        f.diff.edits().iter().any(|(line, edit)| match edit {
+                            LineEdit::Removed { .. } => b.start_line < *line && *line <= b.end_line,
+                            _ => b.start_line < *line && *line < b.end_line,
+                        }),
+                        false,
+                    ),
                 }
             };
             if all || content_mod || tag_mod {
@@ -944,8 +947,7 @@ pub fn invalid_reason(world: &World) -> Option<String> {
                 return Some("check-lua block without x-tok".into());
             }
         }
-        if let FileDiff::Insert { line, renamed_from, edit } = &f.diff {
-            let l = *line;
+        if let FileDiff::Insert { renamed_from, .. } = &f.diff {
             if let Some(old) = renamed_from {
                 if old.is_empty()
                     || old.starts_with('/')
@@ -955,49 +957,66 @@ pub fn invalid_reason(world: &World) -> Option<String> {
                     return Some(format!("rename source {old:?} collides with the tree"));
                 }
             }
-            if l == 0 || l > r.lines.len() {
-                return Some("insert line out of range".into());
-            }
-            let is_tag = |n: usize| {
-                r.blocks.iter().any(|b| b.start_line == n || b.end_line == n)
-            };
-            if let LineEdit::Replaced { old } | LineEdit::Removed { old } = edit {
-                if r.lines.iter().any(|x| x == old) || old.contains('\n') {
-                    // git would have more than one way to write the diff
-                    return Some("old text of the changed line occurs in the file".into());
+            let edits = f.diff.edits();
+            for w in edits.windows(2) {
+                if w[1].0 < w[0].0 + 2 {
+                    return Some("two edits on the same or on adjacent lines".into());
                 }
             }
-            if let LineEdit::Removed { .. } = edit {
-                // reported in front of rendered line l: a content line or the end tag of the block
-                // the removed line was in, never a start tag
-                if r.blocks.iter().any(|b| b.start_line == l) {
-                    return Some("removed line in front of a start tag".into());
+            // blockwatch places a removed line by its number in the OLD file; that is the place in
+            // the new file only while nothing above it has shifted the numbering (an added or
+            // removed line further up). Where the two numberings differ, which block "contains"
+            // the removed line is not something the properties define: such diffs are not drawn.
+            for (k, (_, e)) in edits.iter().enumerate() {
+                if matches!(e, LineEdit::Removed { .. })
+                    && edits[..k].iter().any(|(_, p)| !matches!(p, LineEdit::Replaced { .. }))
+                {
+                    return Some("removed line below an edit that shifts the line numbering".into());
                 }
-                if !r.blocks.iter().any(|b| b.start_line < l && l <= b.end_line) {
-                    return Some("removed line outside every block".into());
+            }
+            let mut olds = BTreeSet::new();
+            for (l, edit) in &edits {
+                let l = *l;
+                if l == 0 || l > r.lines.len() {
+                    return Some("insert line out of range".into());
                 }
-                for b in &r.blocks {
-                    if b.end_line + 1 == l {
-                        return Some("removed line right behind an end tag".into());
+                let is_tag = |n: usize| r.blocks.iter().any(|b| b.start_line == n || b.end_line == n);
+                if let LineEdit::Replaced { old } | LineEdit::Removed { old } = edit {
+                    if r.lines.iter().any(|x| x == old) || old.contains('\n') || !olds.insert(old.clone()) {
+                        // git would have more than one way to write the diff
+                        return Some("old text of the changed line occurs in the file".into());
                     }
                 }
-                continue;
-            }
-            if is_tag(l) {
-                return Some("inserted line is a tag line".into());
-            }
-            if r.lines.get(l) == r.lines.get(l - 1) || (l >= 2 && r.lines.get(l - 2) == r.lines.get(l - 1)) {
-                // git may report the insertion one line further down/up (same verdict, other
-                // text), so the level-A diff writer could not be validated against git
-                return Some("inserted line equals a neighbouring line".into());
-            }
-            if !r.blocks.iter().any(|b| b.start_line < l && l < b.end_line) {
-                return Some("inserted line outside every block".into());
-            }
-            for b in &r.blocks {
-                let inside = b.start_line < l && l < b.end_line;
-                if !inside && (l + 1 == b.start_line || l == b.end_line + 1) {
-                    return Some("inserted line adjoins a tag of a block it is not in".into());
+                if let LineEdit::Removed { .. } = edit {
+                    // reported in front of rendered line l: a content line or the end tag of the
+                    // block the removed line was in, never a start tag
+                    if r.blocks.iter().any(|b| b.start_line == l) {
+                        return Some("removed line in front of a start tag".into());
+                    }
+                    if !r.blocks.iter().any(|b| b.start_line < l && l <= b.end_line) {
+                        return Some("removed line outside every block".into());
+                    }
+                    if r.blocks.iter().any(|b| b.end_line + 1 == l) {
+                        return Some("removed line right behind an end tag".into());
+                    }
+                    continue;
+                }
+                if is_tag(l) {
+                    return Some("inserted line is a tag line".into());
+                }
+                if r.lines.get(l) == r.lines.get(l - 1) || (l >= 2 && r.lines.get(l - 2) == r.lines.get(l - 1)) {
+                    // git may report the insertion one line further down/up (same verdict, other
+                    // text), so the level-A diff writer could not be validated against git
+                    return Some("inserted line equals a neighbouring line".into());
+                }
+                if !r.blocks.iter().any(|b| b.start_line < l && l < b.end_line) {
+                    return Some("inserted line outside every block".into());
+                }
+                for b in &r.blocks {
+                    let inside = b.start_line < l && l < b.end_line;
+                    if !inside && (l + 1 == b.start_line || l == b.end_line + 1) {
+                        return Some("inserted line adjoins a tag of a block it is not in".into());
+                    }
                 }
             }
         }
